@@ -25,6 +25,9 @@ structure TablesOk : Prop where
   /-- no log call on the read/write path formats server text before handing it to the logger
   (supybot's `Logger._log` formats every record: pre-formatted text is formatted twice) -/
   logs : Gen.preformattedLogCalls = []
+  /-- the socket never goes into blocking mode, and `_read` calls `recv` once: the loop cannot hang on a read
+  (the model's `recv` outcomes — data, timeout, error — are then the only ones) -/
+  nonBlocking : Gen.socketMayBlock = false ∧ Gen.readRecvCalls = 1
 
 instance : Decidable TablesOk :=
   decidable_of_iff
@@ -34,13 +37,14 @@ instance : Decidable TablesOk :=
      Gen.ircCallbackFirewalled.lookup "inFilter" = some true ∧ Gen.ircCallbackFirewalled.lookup "outFilter" = some true ∧
      Gen.firewallCatch = "Exception" ∧ Gen.firewallHandlerCatch = "Exception" ∧ Gen.driversRunCatch = "" ∧
      malformedCaught = true ∧ regionCatch "addMsg" = some "" ∧ regionCatch "inFilter" = some "" ∧
-     regionCatch "callback" = some "" ∧ encodeStrict = false ∧ Gen.preformattedLogCalls = [])
-    ⟨fun ⟨a, b, c, d, e, f, x, y, g, h, i, j, k, l, m, n, o⟩ =>
-      ⟨a, b, c, d, e, f, by simp [passHandler, x], by simp [passHandler, y], g, h, i, j, k, l, m, n, o⟩,
-     fun ⟨a, b, c, d, e, f, x, y, g, h, i, j, k, l, m, n, o⟩ =>
+     regionCatch "callback" = some "" ∧ encodeStrict = false ∧ Gen.preformattedLogCalls = [] ∧
+     (Gen.socketMayBlock = false ∧ Gen.readRecvCalls = 1))
+    ⟨fun ⟨a, b, c, d, e, f, x, y, g, h, i, j, k, l, m, n, o, p⟩ =>
+      ⟨a, b, c, d, e, f, by simp [passHandler, x], by simp [passHandler, y], g, h, i, j, k, l, m, n, o, p⟩,
+     fun ⟨a, b, c, d, e, f, x, y, g, h, i, j, k, l, m, n, o, p⟩ =>
       ⟨a, b, c, d, e, f,
        by unfold passHandler at x; split at x <;> simp_all,
-       by unfold passHandler at y; split at y <;> simp_all, g, h, i, j, k, l, m, n, o⟩⟩
+       by unfold passHandler at y; split at y <;> simp_all, g, h, i, j, k, l, m, n, o, p⟩⟩
 
 /-! ### exceptions -/
 
